@@ -160,4 +160,39 @@ theorem foldl_update_inv (htr : TransformOK) : ∀ (chunks : List (List UInt8)) 
     have := ih (m ++ c) (update p c) (update_inv htr m c p h)
     simpa [List.append_assoc] using this
 
+/-! ### chunk boundaries leave no trace in the object (state level, any object) -/
+
+theorem writeByteBlock_count (p : Sha) : (writeByteBlock p).count = p.count := rfl
+
+/-- the loop of `update` over `a ++ b`, entered at the buffer position derived from `count`, is the loop over `a`
+followed by the loop over `b` re-entered at the position re-derived from the `count` it finds -/
+theorem updateLoop_append_aux (b : List UInt8) : ∀ (a : List UInt8) (cur : Nat) (p : Sha), cur = bufferPos p →
+    updateLoop (a ++ b) cur p = updateLoop b (bufferPos (updateLoop a cur p)) (updateLoop a cur p) := by
+  intro a
+  induction a with
+  | nil => intro cur p h; simp [updateLoop, h]
+  | cons x rest ih =>
+    intro cur p h
+    have hc : ((p.count + 1).toNat) % 64 = (cur + 1) % 64 := by
+      rw [h, bufferPos_eq, UInt64.toNat_add, show UInt64.toNat 1 = 1 from rfl]; omega
+    have hlt : cur < 64 := by rw [h, bufferPos_eq]; omega
+    simp only [List.cons_append, updateLoop]
+    by_cases h64 : cur + 1 = 64
+    · simp only [h64, if_true]
+      apply ih
+      rw [bufferPos_eq, writeByteBlock_count]; simp only []; rw [hc, h64]
+    · simp only [h64, if_false]
+      apply ih
+      rw [bufferPos_eq]; simp only []; rw [hc]; omega
+
+theorem update_update (p : Sha) (a b : List UInt8) : update (update p a) b = update p (a ++ b) := by
+  unfold update
+  rw [updateLoop_append_aux b a (bufferPos p) p rfl]
+
+theorem foldl_update_flatten : ∀ (chunks : List (List UInt8)) (p : Sha), chunks.foldl update p = update p chunks.flatten := by
+  intro chunks
+  induction chunks with
+  | nil => intro p; rfl
+  | cons c cs ih => intro p; rw [List.foldl_cons, ih, update_update, List.flatten_cons]
+
 end Nstd.Sha
